@@ -454,6 +454,9 @@ func main() {
 	}{
 		{"structure", gen{scalars: []string{`1`, `"x"`}, keys: []string{"a", "b", "c"}, maxKids: 3}, nStruct},
 		{"scalars", gen{scalars: special, keys: []string{"a", "[{", "}]"}, maxKids: 2}, nScalar},
+		// member names that JSON has to escape differently from Go's %q (control characters, DEL, a non-printable
+		// code point above U+FFFF), in one- and two-member objects at every level
+		{"names", gen{scalars: []string{`1`, `"x"`}, keys: []string{"a", "\u0001", "\u007f", "\U000f0000", "\t\"\\"}, maxKids: 2}, nStruct - 1},
 	}
 
 	type res struct {
